@@ -769,9 +769,12 @@ static void serialise(const GModel &m, long id) {
 static std::string g_dir;
 static void run_one(GModel &m, long id, int fmt, bool comments, bool bf, int cs, int reader_flags) {
   m.h.format = fmt; m.comments = comments; m.bounds_first = bf; m.colsizes = cs;
+  int saved_arith = m.h.arith_kind;
+  if (fmt == mp::NLHeader::BINARY) m.h.arith_kind = mp::arith::GetKind();   // the feeder contract for binary output
   // what "%.g" followed by strtod makes of ampl_vbtol (plain libc, independent of writer and reader)
   char vbuf[64]; std::snprintf(vbuf, sizeof vbuf, "%.g", m.h.ampl_vbtol);
   double vb_back = std::strtod(vbuf, nullptr);
+  std::printf("M arith %d\n", m.h.arith_kind);
   std::printf("M run %d %d %d %d %d %s\n", fmt, comments ? 1 : 0, bf ? 1 : 0, cs, reader_flags, hexd(vb_back).c_str());
   std::string base = g_dir + "/m";
   std::remove((base + ".nl").c_str());
@@ -794,7 +797,7 @@ static void run_one(GModel &m, long id, int fmt, bool comments, bool bf, int cs,
   Lines exp; intended(m, fmt, exp);
   for (auto &l : exp) std::printf("X %s\n", l.c_str());
   ++stat_runs;
-  // names files (identical for every option combination; checked once per model by the caller)
+  m.h.arith_kind = saved_arith;
 }
 static void check_names(const GModel &m) {
   std::string base = g_dir + "/m";
@@ -860,6 +863,21 @@ int main(int argc, char **argv) {
   op_used.assign(NOPS, 0);
   for (int i = 0; i < NOPS; ++i) std::printf("# op %s code=%d kind=%d\n", OPS[i].name, OPS[i].code, OPS[i].kind);
 
+  if (mode == "probe-call0") {    // separate process: a function call without arguments (the writer asserts nargs_>0)
+    GModel m = gen_model(2, 0);
+    m.h.num_funcs = 1; m.funcs.clear(); m.funcs.push_back(GFunc{"f", 0, 0});
+    m.h.num_objs = 1; m.objs.clear();
+    GObj o; o.type = 0; o.e.k = GExpr::CALL; o.e.i = 0; m.objs.push_back(o);
+    m.dvs.erase(-1); m.h.num_common_exprs_in_single_objs = 0; m.h.num_common_exprs_in_objs = 0;
+    // keep the defined-variable count consistent: drop all of them
+    m.dvs.clear(); m.h.num_common_exprs_in_both = m.h.num_common_exprs_in_cons = m.h.num_common_exprs_in_single_cons = 0;
+    for (auto &c : m.cons) { c.e = GExpr(); } for (auto &c : m.lcons) { c.e = GExpr(); c.e.x = 1; }
+    serialise(m, 0);
+    std::fflush(stdout);
+    run_one(m, 0, 0, false, true, 1, 0);
+    std::printf("# probe-call0 survived\n");
+    return 0;
+  }
   if (mode == "probe-intmin") {   // separate process: "%d" of INT_MIN in text mode
     GModel m = gen_model(2, 0);
     m.sufs.clear(); GSuf s; s.name = "p"; s.kind = 0; s.dbl = false; s.iv.push_back({0, INT_MIN}); m.sufs.push_back(s);
@@ -889,7 +907,7 @@ int main(int argc, char **argv) {
       ++ncomb;
       if (!take) continue;
       run_one(m, id, fmt, c, bf, cs, 0);
-      if (ncomb % 5 == 0) run_one(m, id, fmt, c, bf, cs, mp::READ_BOUNDS_FIRST);
+      if ((ncomb + k) % 5 == 0) run_one(m, id, fmt, c, bf, cs, mp::READ_BOUNDS_FIRST);
     }
     check_names(m);
     ++id;
